@@ -1223,9 +1223,10 @@ func (x *Exec) specGoCall(st *State, call func() []Out) Value {
 	saved := *st
 	_ = saved
 	// run on the state itself so that axioms/apps accumulate
+	mark := cellCtr
 	outs := call()
 	_ = work
-	outs = x.maybeMergeOuts(st, outs)
+	outs = x.maybeMergeOuts(st, outs, mark)
 	var rets []Out
 	for _, o := range outs {
 		if o.kind == oRet {
